@@ -257,4 +257,11 @@ theorem fracPow_congr (lnB : decomposed192) (hG : LnGap lnB) (f f' : U128) (fe f
   exact epow_congr r r' _ _ t1 hrv a1 b1 hU ⟨by omega, by omega⟩ ⟨by omega, by omega⟩
     (conv_log_192 r.sig) (conv_log_192 r'.sig)
 
+/-- the hypotheses are satisfiable: the fraction `0.0625` as `625e-4` and as `62500e-6` -/
+example : fracPow ln2 ⟨625, 0⟩ (-4) = fracPow ln2 ⟨62500, 0⟩ (-6) :=
+  fracPow_congr ln2 ln2_gap _ _ _ _ (by
+    rw [show (⟨625, 0⟩ : U128).toNat = 625 by decide, show (⟨62500, 0⟩ : U128).toNat = 62500 by decide,
+      show (-4 : Int16).toInt = -4 by decide, show (-6 : Int16).toInt = -6 by decide]
+    norm_num) (by decide) (by decide) (by decide) (by decide) (by decide)
+
 end CohortElem
